@@ -632,7 +632,7 @@ func c05Alphabets(c *mon.Ctx, r *mon.Rand) {
 	so := tally.SanitizeOptions{
 		NameCharacters:       tally.ValidCharacters{Ranges: tally.AlphanumericRange, Characters: tally.UnderscoreDashDotCharacters},
 		KeyCharacters:        tally.ValidCharacters{Ranges: tally.AlphanumericRange, Characters: tally.UnderscoreCharacters},
-		ValueCharacters:      tally.ValidCharacters{Ranges: tally.AlphanumericRange, Characters: tally.UnderscoreDashDotCharacters},
+		ValueCharacters:      tally.ValidCharacters{Ranges: tally.AlphanumericRange, Characters: []rune{'_', '-', '.', ':'}},
 		ReplacementCharacter: '_',
 	}
 	cached := r.Bool()
@@ -647,7 +647,7 @@ func c05Alphabets(c *mon.Ctx, r *mon.Rand) {
 	}
 	root, _ := vNewRoot(opts, 0, uint(r.Range(0, 3)))
 	base := r.Ident(3)
-	vals := []string{base + ".b", base + "_b", base + "-b"}
+	vals := []string{base + ".b", base + "_b", base + "-b", base + ":b"} // every listed character, the last one of the list included
 	key := r.Pick("host", "k_1")
 	desc := map[string]interface{}{"scenario": "value alphabet wider than key alphabet", "values": vals, "key": key, "cached": cached}
 	c.Eval(1)
